@@ -6,6 +6,7 @@
 -/
 import ChumskyModel.Proofs.Lemmas.DescSim
 import ChumskyModel.Proofs.Lemmas.ExtDeco
+import ChumskyModel.Proofs.Lemmas.ExtDecoS
 set_option linter.unusedSimpArgs false
 namespace Chumsky
 
@@ -113,6 +114,32 @@ example :
       | .result r f => (r.output.isSome, r.errs.length, f.pos) | _ => (false, 99, 0))) = ((true, 0, 3), (true, 0, 3)) := by
   decide +kernel
 
+/-- **the class of the property, with extensions**: no recovery strategy under a decoration — in the grammar, in the definitions and
+    in the parsers of the extensions (`EEnv.Adm`: an extension may be referenced anywhere outside decorations, and under one only
+    if `dr`, in which case its parsers are recovery free): the decorated and the undecorated parse agree on acceptance, output,
+    final position / inspector / context, the number of errors AND ALL THEIR SPANS (secondary and primary) — through the operator
+    rewinds of `pratt_go` and across the sub-contexts of nested parses (`nestedStep_simS`: the inner run starts with nothing
+    sheltered, and what it leaves is re-homed and merged alike in both runs). -/
+theorem c17_extensions_erasure (e : EEnv) (n : Nat) (env : Env) (hm : env.memoOn = false) (hek : env.ek ≠ .empty) (dr : Bool)
+    (hd : DecoSafeDefs dr env) (hx : e.Adm true dr) (m : Mode) (g : G) (hg : g.decoSafe dr = true) :
+    TopSim (parseTopE e n env m g)
+      (parseTopE (e.erase true) n { env with defs := env.defs.map G.eraseDeco } m g.eraseDeco) :=
+  parseTopE_decoSim e n env hm hek dr hd hx m g hg
+
+/-- non-vacuity: the labelled front end of the example above meets the hypotheses with `dr = true` (its extensions are
+    recovery free, so they may be referenced under the labels) -/
+example :
+    let e : EEnv := { base := 100, gap := 1, groups := [(1000, [120, 43, 121])],
+                      exts := [.pratt (.labelled 1 true (.or_ (.oneOf [120, 121]) (.call 101)))
+                                 [.infix true 1 (.labelled 2 false (.just [43])), .infix true 2 (.mapErr 3 (.just [42]))],
+                               .nested (.labelled 4 true (.call 100)) (.select [1000])] }
+    e.Adm true true ∧ (G.labelled 5 false (.call 100)).decoSafe true = true := by
+  refine ⟨?_, by decide⟩
+  intro x hx u _
+  simp only [List.mem_cons, List.mem_nil_iff, or_false] at hx
+  rcases hx with rfl | rfl <;> cases u <;> decide
+
+#print axioms c17_extensions_erasure
 #print axioms c17_extensions_erasure_any_grammar
 #print axioms c17_extensions_erasure_run
 #print axioms c17_erasure
